@@ -55,7 +55,9 @@ REAL_VS_STUB = {
              'split / cut / reset / timeout', 'KMIPProxy.open()'],
 }
 ASSUMPTIONS = [
-    'legal responses only: one batch item echoing the operation, batch '
+    'legal responses only: one batch item echoing the operation (or, for a '
+    'failure of the whole message as the PyKMIP server itself reports '
+    'authentication / parse / size failures, carrying no Operation), batch '
     'count 1, reason and message present exactly on failure',
     'a truncated, reset or timed-out response must raise (any exception); '
     'which exception is not prescribed',
@@ -273,6 +275,11 @@ def payload_nodes(op, p, ver):
 
 def build_response(op, ver, ok, p, fail, now=1600000000):
     items = [E(TAG['OPERATION'], OPNUM[op])]
+    if not ok and fail.get('no_operation'):
+        # a failure of the whole message (authentication, undecodable or
+        # oversized request ...): the server's error response carries no
+        # Operation in its single item
+        items = []
     if ok:
         items += [E(TAG['RESULT_STATUS'], 0),
                   S(TAG['RESPONSE_PAYLOAD'], *payload_nodes(op, p, ver))]
@@ -629,6 +636,8 @@ def generate(rng, tier, index):
                         'Operation failed. See the server logs.'])
         plan['fail'] = {'status': r.choice([1, 1, 1, 2, 3]),
                         'reason': reason, 'message': msg}
+        if r.random() < 0.25:
+            plan['fail']['no_operation'] = True
     x = r.random()
     if x < 0.25:
         plan['transport'] = {'kind': 'whole'}
